@@ -7,14 +7,13 @@
 //! `entries()` is printed as a delta against the snapshot before the call (common prefix length +
 //! new tail), which is lossless.
 //!
-//! TODO(load): `load()`/`load_unsafe()` execute `lgdt`, which needs the privileged-instruction
-//! trap (trap.rs, written by another builder). Model and theorem exist
-//! (`Gdt.load`, `C14.load_hands_cpu_the_table`); the harness part is to be added here:
-//! trap the `lgdt`, read the 10-byte operand, compare base with `entries().as_ptr()` and limit
-//! with `limit()`.
+//! `load()`/`load_unsafe()` execute `lgdt`: the instruction is trapped (trap.rs) and its 10-byte operand
+//! printed (`gdt_load max used base => <n> lgdt <limit> <base>`), for tables with fewer used slots than
+//! capacity as well as full ones, on the heap, on the stack and in a static.
 
 use crate::gen::Rng;
 use crate::out::{guard, Out};
+use crate::trap;
 use crate::Tier;
 use x86_64::structures::gdt::{Descriptor, DescriptorFlags, GlobalDescriptorTable};
 
@@ -188,7 +187,74 @@ fn raw_slice(rng: &mut Rng, max: u64, out: &mut Out) -> Vec<u64> {
     v
 }
 
+/// One trapped `lgdt`: a table of capacity MAX with `used - 1` appended user segments.
+fn load_case<const MAX: usize>(out: &mut Out, rng: &mut Rng, used: u64, place: u64) {
+    let mut g = GlobalDescriptorTable::<MAX>::empty();
+    for _ in 1..used {
+        g.append(Descriptor::UserSegment(descriptor_word(rng)));
+    }
+    let emit = |out: &mut Out, kind: u64, g: &GlobalDescriptorTable<MAX>, r: trap::Run<()>| {
+        let base = g.entries().as_ptr() as u64;
+        let mut s = trap::trace_tokens(&r.events);
+        if r.value.is_none() {
+            s.push_str(" panic");
+        }
+        out.emit("gdt_load", &[MAX as u64, used, base, kind], &s, true);
+    };
+    if place == 0 {
+        // on the stack, `load_unsafe`
+        let r = trap::run(|| unsafe { g.load_unsafe() });
+        emit(out, 0, &g, r);
+    } else {
+        // leaked to the heap: `load` needs `&'static self`
+        let pad: Vec<u8> = vec![0; (rng.below(64) * 8) as usize];
+        let gs: &'static GlobalDescriptorTable<MAX> = Box::leak(Box::new(g));
+        drop(pad);
+        let r = trap::run(|| gs.load());
+        emit(out, 1, gs, r);
+        let r = trap::run(|| unsafe { gs.load_unsafe() });
+        emit(out, 0, gs, r);
+    }
+}
+
+static STATIC_GDT: GlobalDescriptorTable = GlobalDescriptorTable::new();
+
+fn loads(out: &mut Out, rng: &mut Rng, tier: Tier) {
+    if let Err(e) = trap::selftest() {
+        eprintln!("trap selftest FAILED: {}", e);
+        std::process::exit(2);
+    }
+    for _ in 0..tier.n(4, 60) {
+        for place in [0u64, 1] {
+            for max in [1u64, 2, 3, 8, 9] {
+                // every number of used slots for the small capacities
+                for used in 1..=max {
+                    match max {
+                        1 => load_case::<1>(out, rng, used, place),
+                        2 => load_case::<2>(out, rng, used, place),
+                        3 => load_case::<3>(out, rng, used, place),
+                        8 => load_case::<8>(out, rng, used, place),
+                        _ => load_case::<9>(out, rng, used, place),
+                    }
+                }
+            }
+            for used in [1u64, 2, 5, 4095, 4096, 8191, 8192] {
+                load_case::<8192>(out, rng, used, place);
+            }
+        }
+    }
+    let r = trap::run(|| STATIC_GDT.load());
+    let base = STATIC_GDT.entries().as_ptr() as u64;
+    let mut s = trap::trace_tokens(&r.events);
+    if r.value.is_none() {
+        s.push_str(" panic");
+    }
+    out.emit("gdt_load", &[8, 1, base, 1], &s, true);
+    out.notes.insert("traps".into(), format!("{}", trap::total_traps()));
+}
+
 pub fn run(out: &mut Out, rng: &mut Rng, tier: Tier) {
+    loads(out, rng, tier);
     // empty(): every instantiated capacity, including the two the assertions reject
     for max in [0u64, 1, 2, 3, 8, 9, 8192, 8193] {
         let res = dispatch!(max, history(None, &[]));
